@@ -158,9 +158,10 @@ class Scenario:
     def expect_write(self, b):
         self.exp_writes[-1].append(b)
 
-    def new_conn(self, end_prev="S", refused=False):
+    def new_conn(self, end_prev="S", refused=False, silent=False):
+        """silent: the connection ATTEMPT is never answered (neither accepted nor refused)"""
         self.ends[-1] = end_prev
-        self.conns.append("refused" if refused else [])
+        self.conns.append("refused" if refused else "silent" if silent else [])
         self.ends.append("S")
         self.exp_writes.append([])
 
@@ -188,8 +189,8 @@ class Scenario:
         cfg = "serial=%s;tid=%s;cur=%d;amount=%d;rct=%d;pw=%d;max=%d" % (c["serial"].encode().hex(), c["tid"], c["cur"], c["amount"], c["rct"], c["pw"], c["max"])
         conns = []
         for chunks, end in zip(self.conns, self.ends):
-            if chunks == "refused":
-                conns.append("refused")
+            if chunks in ("refused", "silent"):
+                conns.append(chunks)
             else:
                 conns.append(",".join(["%s:%s" % ("N" if d is None else d, b.hex()) for d, b in chunks] + [end]))
         return "client\t%s\t%s\t%s" % (cfg, ";".join(self.ops) or "-", "|".join(conns))
